@@ -9,7 +9,7 @@
    children satisfies the interface of ProofsLT over O, the sorted union of the Ok. *)
 From Coq Require Import NArith ZArith List Bool Lia Permutation.
 From Blue Require Import Cursor.Iface Cursor.Ref Cursor.Concat Cursor.Merging Cursor.Spec Cursor.Proofs_Order Cursor.Proofs_Ref
-  Cursor.Proofs_Spec Cursor.Proofs_Heap Cursor.Proofs_Merging Cursor.Proofs_Pruning Snap.ProofsLT Snap.ProofsLTP.
+  Cursor.Proofs_Spec Cursor.Proofs_Heap Cursor.Proofs_Concat Cursor.Proofs_Merging Cursor.Proofs_Pruning Snap.ProofsLT Snap.ProofsLTP.
 Import ListNotations.
 Local Open Scope Z_scope.
 
@@ -72,11 +72,9 @@ Hypothesis k_first : forall Ok Uk s md p a b, K Ok Uk s md p a b -> exists a' b'
   K Ok Uk (c_first c s) true (LGap 0) a' b' /\ c_kv c (c_first c s) = None.
 Hypothesis k_last : forall Ok Uk s md p a b, K Ok Uk s md p a b -> exists a' b',
   K Ok Uk (c_last c s) false (LGap (len Ok)) a' b' /\ c_kv c (c_last c s) = None.
-(* seek_to_first does not depend on where the child stood *)
-Hypothesis k_refirst : forall Ok Uk s md p a b, K Ok Uk s md p a b ->
-  c_kv c (c_next c (c_first c (c_next c (c_first c s)))) = c_kv c (c_next c (c_first c s)).
-Hypothesis k_relast : forall Ok Uk s md p a b, K Ok Uk s md p a b ->
-  c_kv c (c_prev c (c_last c (c_prev c (c_last c s)))) = c_kv c (c_prev c (c_last c s)).
+(* everything a child could show is determined by its state (the list under it) *)
+Variable Uof : S -> list entry.
+Hypothesis k_U : forall Ok Uk s md p a b, K Ok Uk s md p a b -> Uk = Uof s.
 
 (* ---------------------------------------------------------------- the children together *)
 (* every Ok sorted, together they are O; nothing two children could show has the same (key, timestamp) *)
@@ -275,31 +273,31 @@ Definition Kd (md : bool) (s : S) (d : kdesc) : Prop := K (kO d) (kU d) s md (kp
 Definition Fnorm (st : mstate S) (v a T : Z) : Prop :=
   exists ds, m_fwd st = true /\ 0 <= v <= n /\ kids_ok true (m_kids st) ds /\ kstatic ds /\ FW v ds /\
              heap c true (m_kids st) /\ asum ds = a /\ tsum ds = T.
-Definition Fstart (st : mstate S) (a T : Z) : Prop :=
+Definition Fstart (st : mstate S) (T : Z) : Prop :=
   exists ds, m_fwd st = true /\ kstatic ds /\ FW 0 ds /\
              match m_kids st, ds with
              | [], [] => True
              | s0 :: kids', d0 :: ds' => Kd true s0 d0 /\ kp d0 = LGap 0 /\ c_kv c s0 = None /\ kids_ok true kids' ds'
              | _, _ => False
              end /\
-             heap c true (on_root (c_next c) (m_kids st)) /\ asum ds = a /\ tsum ds = T.
+             heap_from (is_less c true) 1 (m_kids st) /\ tsum ds = T.
 Definition Rnorm (st : mstate S) (r b T : Z) : Prop :=
   exists ds, m_fwd st = false /\ -1 <= r <= n - 1 /\ kids_ok false (m_kids st) ds /\ kstatic ds /\ RV r ds /\
              heap c false (m_kids st) /\ bsum ds = b /\ tsum ds = T.
-Definition Rend (st : mstate S) (b T : Z) : Prop :=
+Definition Rend (st : mstate S) (T : Z) : Prop :=
   exists ds, m_fwd st = false /\ kstatic ds /\ RV (n - 1) ds /\
              match m_kids st, ds with
              | [], [] => True
              | s0 :: kids', d0 :: ds' => Kd false s0 d0 /\ kp d0 = LGap (len (kO d0)) /\ c_kv c s0 = None /\ kids_ok false kids' ds'
              | _, _ => False
              end /\
-             heap c false (on_root (c_prev c) (m_kids st)) /\ bsum ds = b /\ tsum ds = T.
+             heap_from (is_less c false) 1 (m_kids st) /\ tsum ds = T.
 
 Inductive MLT (st : mstate S) : bool -> lpos -> Z -> Z -> Z -> Prop :=
 | MLF p a T : Fnorm st (nu p) a T -> kvmatch st p -> MLT st true p a (T + 1) T
-| MLFs a T : Fstart st a T -> MLT st true (LGap 0) a (T + 1) T
+| MLFs T : Fstart st T -> MLT st true (LGap 0) (T + 1) (T + 1) T
 | MLR p b T : Rnorm st (rho p) b T -> kvmatch st p -> MLT st false p (T + 1) b T
-| MLRe b T : Rend st b T -> MLT st false (LGap n) (T + 1) b T.
+| MLRe T : Rend st T -> MLT st false (LGap n) (T + 1) (T + 1) T.
 
 (* every child stands somewhere: all seek_to_first / seek_to_last / seek need *)
 Definition stat (st : mstate S) (T : Z) : Prop :=
@@ -310,8 +308,8 @@ Proof. induction 1 as [|s d kids ds [H _] _ IH]; constructor; [exists md; exact 
 
 Lemma MLT_stat st md p a b T : MLT st md p a b T -> stat st T.
 Proof.
-  intros [p0 a0 T0 [ds [_ [_ [Hok [Hst [_ [_ [_ HT]]]]]]]] _|a0 T0 [ds [_ [Hst [_ [Hr [_ [_ HT]]]]]]]|
-          p0 b0 T0 [ds [_ [_ [Hok [Hst [_ [_ [_ HT]]]]]]]] _|b0 T0 [ds [_ [Hst [_ [Hr [_ [_ HT]]]]]]]]; exists ds.
+  intros [p0 a0 T0 [ds [_ [_ [Hok [Hst [_ [_ [_ HT]]]]]]]] _|T0 [ds [_ [Hst [_ [Hr [_ HT]]]]]]|
+          p0 b0 T0 [ds [_ [_ [Hok [Hst [_ [_ [_ HT]]]]]]]] _|T0 [ds [_ [Hst [_ [Hr [_ HT]]]]]]]; exists ds.
   - split; [eapply kids_ok_any; eauto|auto].
   - split; [|auto]. destruct (m_kids st) as [|s0 kids'], ds as [|d0 ds']; try contradiction; [constructor|].
     destruct Hr as [H0 [_ [_ Hok]]]. constructor; [exists true; exact H0|eapply kids_ok_any; eauto].
@@ -329,15 +327,16 @@ Qed.
 Lemma MLT_bounds st md p a b T : MLT st md p a b T -> 0 <= a <= T + 1 /\ 0 <= b <= T + 1 /\ 0 <= T.
 Proof.
   intros HM. destruct (MLT_stat _ _ _ _ _ _ HM) as [ds [Hany [_ HT]]]. destruct (sums_bound _ _ Hany) as [Ha Hb].
-  destruct HM as [p0 a0 T0 [ds' H] _|a0 T0 [ds' H]|p0 b0 T0 [ds' H] _|b0 T0 [ds' H]].
+  destruct HM as [p0 a0 T0 [ds' H] _|T0 [ds' H]|p0 b0 T0 [ds' H] _|T0 [ds' H]]; try lia.
   - destruct H as [_ [_ [Hok [_ [_ [_ [E1 E2]]]]]]]. destruct (sums_bound _ _ (kids_ok_any _ _ _ Hok)). lia.
-  - destruct H as [_ [_ [_ [Hr [_ [E1 E2]]]]]].
-    destruct (m_kids st) as [|s0 kids'], ds' as [|d0 ds'']; try contradiction; cbn [asum tsum] in *; [lia|].
-    destruct Hr as [H0 [_ [_ Hok]]]. destruct (sums_bound _ _ (kids_ok_any _ _ _ Hok)). destruct (k_meas _ _ _ _ _ _ _ H0). lia.
   - destruct H as [_ [_ [Hok [_ [_ [_ [E1 E2]]]]]]]. destruct (sums_bound _ _ (kids_ok_any _ _ _ Hok)). lia.
-  - destruct H as [_ [_ [_ [Hr [_ [E1 E2]]]]]].
-    destruct (m_kids st) as [|s0 kids'], ds' as [|d0 ds'']; try contradiction; cbn [bsum tsum] in *; [lia|].
-    destruct Hr as [H0 [_ [_ Hok]]]. destruct (sums_bound _ _ (kids_ok_any _ _ _ Hok)). destruct (k_meas _ _ _ _ _ _ _ H0). lia.
+Qed.
+
+Lemma heap1_upd_root fwd kids f : heap_from (is_less c fwd) 1 kids -> heap_from (is_less c fwd) 1 (upd kids 0 f).
+Proof.
+  intros H i ch a b Hi Hc Ha Hb. rewrite nth_error_upd in Ha, Hb.
+  destruct (Nat.eqb_spec i 0); [lia|]. destruct (Nat.eqb_spec ch 0); [destruct Hc; lia|].
+  apply (H i ch); auto.
 Qed.
 
 (* ---- descriptors after a call: same Ok and Uk *)
@@ -484,29 +483,24 @@ Proof.
   pose proof (kstatic_same _ _ Hsame Hst) as Hst1.
   assert (FW 0 ds1) as Hfw1.
   { apply Forall_forall. intros d' Hd'. destruct (same_in _ _ _ d' HX Hd') as [d [Hd [_ Hnu]]]. rewrite Hnu. symmetry. eapply cnt_zero; eauto. }
-  assert (forall s1, In s1 kids1 -> c_kv c (c_next c (c_first c s1)) = c_kv c s1) as Hre.
-  { intros s1 Hs1. apply in_map_iff in Hs1. destruct Hs1 as [s [<- Hs]]. destruct (In_nth_error _ _ Hs) as [i Hi].
-    destruct (Forall2_nth _ _ _ _ _ Hany Hi) as [d [_ [md H]]]. exact (k_refirst _ _ _ _ _ _ _ H). }
   destruct (Forall2_perm _ _ _ _ Hok1 (Permutation_sym (heapify_perm' c true kids1))) as [ds2 [HP2 Hok2]].
   pose proof (kstatic_perm _ _ HP2 Hst1) as Hst2. assert (FW 0 ds2) as Hfw2 by (eapply Permutation_Forall; eauto).
   pose proof (heapify_is_heap c true kids1) as Hheap. pose proof (heapify_perm' c true kids1) as HPk.
   set (kids2 := heapify (is_less c true) kids1) in *.
   assert (tsum ds2 = T) as HT2 by (rewrite <- (tsum_perm _ _ HP2), (tsum_same _ _ Hsame); exact HT).
   destruct Hok2 as [|s0 d0 kids' ds' [H0 Hn0] Hok'].
-  - exists 0. split; [|reflexivity]. apply MLFs. exists []. cbn [m_fwd m_kids on_root upd]. cbn [tsum] in HT2. rewrite <- HT2.
-    split; [reflexivity|]. split; [exact Hst2|]. split; [constructor|]. split; [exact I|]. split; [exact Hheap|]. split; reflexivity.
+  - exists (T + 1). split; [|reflexivity]. apply MLFs. exists []. cbn [m_fwd m_kids on_root upd].
+    split; [reflexivity|]. split; [exact Hst2|]. split; [constructor|]. split; [exact I|]. split; [eapply heap_from_weaken; [|exact Hheap]; lia|exact HT2].
   - destruct (k_first _ _ _ _ _ _ _ H0) as [a1 [b1 [H1 Hkv1]]].
     set (d0' := mkKD (kO d0) (kU d0) (LGap 0) a1 b1).
     assert (Forall2 same_lists (d0 :: ds') (d0' :: ds')) as Hsame2 by (constructor; [split; reflexivity|apply same_lists_refl]).
-    exists (asum (d0' :: ds')). split.
+    exists (T + 1). split.
     + apply MLFs. exists (d0' :: ds'). cbn [m_fwd m_kids on_root upd]. split; [reflexivity|].
       split; [exact (kstatic_same _ _ Hsame2 Hst2)|]. split.
       { constructor; [|exact (Forall_inv_tail Hfw2)]. cbn [d0' kp kO nu]. symmetry. apply (cnt_zero _ d0 Hst2). now left. }
       split; [split; [exact H1|split; [reflexivity|split; [exact Hkv1|exact Hok']]]|].
-      split; [|split; [reflexivity|rewrite (tsum_same _ _ Hsame2); exact HT2]].
-      eapply heap_from_kv_ext; [|exact Hheap]. constructor.
-      * symmetry. apply Hre. eapply Permutation_in; [exact HPk|now left].
-      * clear. induction kids'; constructor; auto.
+      split; [|rewrite (tsum_same _ _ Hsame2); exact HT2].
+      exact (heap_upd_root c true (s0 :: kids') (c_first c) Hheap).
     + unfold m_kv, on_root. cbn [m_kids upd]. exact Hkv1.
 Qed.
 
@@ -524,29 +518,24 @@ Proof.
   assert (RV (n - 1) ds1) as Hrv1.
   { apply Forall_forall. intros d' Hd'. destruct (same_in _ _ _ d' HX Hd') as [d [Hd [[EO _] Hrho]]]. rewrite Hrho, EO.
     replace (n - 1 + 1) with n by lia. now rewrite cnt_full. }
-  assert (forall s1, In s1 kids1 -> c_kv c (c_prev c (c_last c s1)) = c_kv c s1) as Hre.
-  { intros s1 Hs1. apply in_map_iff in Hs1. destruct Hs1 as [s [<- Hs]]. destruct (In_nth_error _ _ Hs) as [i Hi].
-    destruct (Forall2_nth _ _ _ _ _ Hany Hi) as [d [_ [md H]]]. exact (k_relast _ _ _ _ _ _ _ H). }
   destruct (Forall2_perm _ _ _ _ Hok1 (Permutation_sym (heapify_perm' c false kids1))) as [ds2 [HP2 Hok2]].
   pose proof (kstatic_perm _ _ HP2 Hst1) as Hst2. assert (RV (n - 1) ds2) as Hrv2 by (eapply Permutation_Forall; eauto).
   pose proof (heapify_is_heap c false kids1) as Hheap. pose proof (heapify_perm' c false kids1) as HPk.
   set (kids2 := heapify (is_less c false) kids1) in *.
   assert (tsum ds2 = T) as HT2 by (rewrite <- (tsum_perm _ _ HP2), (tsum_same _ _ Hsame); exact HT).
   destruct Hok2 as [|s0 d0 kids' ds' [H0 Hn0] Hok'].
-  - exists 0. split; [|reflexivity]. apply MLRe. exists []. cbn [m_fwd m_kids on_root upd]. cbn [tsum] in HT2. rewrite <- HT2.
-    split; [reflexivity|]. split; [exact Hst2|]. split; [constructor|]. split; [exact I|]. split; [exact Hheap|]. split; reflexivity.
+  - exists (T + 1). split; [|reflexivity]. apply MLRe. exists []. cbn [m_fwd m_kids on_root upd].
+    split; [reflexivity|]. split; [exact Hst2|]. split; [constructor|]. split; [exact I|]. split; [eapply heap_from_weaken; [|exact Hheap]; lia|exact HT2].
   - destruct (k_last _ _ _ _ _ _ _ H0) as [a1 [b1 [H1 Hkv1]]].
     set (d0' := mkKD (kO d0) (kU d0) (LGap (len (kO d0))) a1 b1).
     assert (Forall2 same_lists (d0 :: ds') (d0' :: ds')) as Hsame2 by (constructor; [split; reflexivity|apply same_lists_refl]).
-    exists (bsum (d0' :: ds')). split.
+    exists (T + 1). split.
     + apply MLRe. exists (d0' :: ds'). cbn [m_fwd m_kids on_root upd]. split; [reflexivity|].
       split; [exact (kstatic_same _ _ Hsame2 Hst2)|]. split.
       { constructor; [|exact (Forall_inv_tail Hrv2)]. cbn [d0' kp kO rho]. replace (n - 1 + 1) with n by lia. now rewrite cnt_full. }
       split; [split; [exact H1|split; [reflexivity|split; [exact Hkv1|exact Hok']]]|].
-      split; [|split; [reflexivity|rewrite (tsum_same _ _ Hsame2); exact HT2]].
-      eapply heap_from_kv_ext; [|exact Hheap]. constructor.
-      * symmetry. apply Hre. eapply Permutation_in; [exact HPk|now left].
-      * clear. induction kids'; constructor; auto.
+      split; [|rewrite (tsum_same _ _ Hsame2); exact HT2].
+      exact (heap_upd_root c false (s0 :: kids') (c_last c) Hheap).
     + unfold m_kv, on_root. cbn [m_kids upd]. exact Hkv1.
 Qed.
 
@@ -619,8 +608,8 @@ Lemma nextK st md p a b T : MLT st md p a b T ->
     (m_kv c (m_next c st) = None -> p' = LGap n) /\ (m_kv c (m_next c st) = None \/ a' < a).
 Proof.
   intros HM. pose proof (MLT_bounds _ _ _ _ _ _ HM) as HB.
-  destruct HM as [p a T [ds [Hf [Hv [Hok [Hst [Hfw [Hheap [Ha HT]]]]]]]] Hkv|a T [ds [Hf [Hst [Hfw [Hroot [Hheap [Ha HT]]]]]]]|
-                  p b T [ds [Hf [Hr [Hok [Hst [Hrv [Hheap [Hb HT]]]]]]]] Hkv|b T [ds [Hf [Hst [Hrv [Hroot [Hheap [Hb HT]]]]]]]];
+  destruct HM as [p a T [ds [Hf [Hv [Hok [Hst [Hfw [Hheap [Ha HT]]]]]]]] Hkv|T [ds [Hf [Hst [Hfw [Hroot [Hheap HT]]]]]]|
+                  p b T [ds [Hf [Hr [Hok [Hst [Hrv [Hheap [Hb HT]]]]]]]] Hkv|T [ds [Hf [Hst [Hrv [Hroot [Hheap HT]]]]]]];
     unfold m_next; rewrite Hf; cbn [negb].
   - (* forward: the root steps, percolate *)
     assert (heap c true (percolate_down (is_less c true) (length (on_root (c_next c) (m_kids st))) (on_root (c_next c) (m_kids st)) 0)) as Hheap'
@@ -668,7 +657,7 @@ Proof.
         pose proof (root_none_all true _ s0 Hheap eq_refl Hs0) as Hall. constructor; [exact Hs1|exact (Forall_inv_tail Hall)].
   - (* forward, just after seek_to_first: the root moves onto its first entry *)
     assert (heap c true (percolate_down (is_less c true) (length (on_root (c_next c) (m_kids st))) (on_root (c_next c) (m_kids st)) 0)) as Hheap'
-      by (apply percolate_root_heap; eapply heap_from_weaken; [|exact Hheap]; lia).
+      by (apply percolate_root_heap; now apply heap1_upd_root).
     pose proof (percolate_perm' c true (length (on_root (c_next c) (m_kids st))) (on_root (c_next c) (m_kids st)) 0) as HP.
     set (kids2 := percolate_down (is_less c true) (length (on_root (c_next c) (m_kids st))) (on_root (c_next c) (m_kids st)) 0) in *.
     assert (0 <= 0 <= n) as Hv by (pose proof (len_nonneg O); lia).
@@ -687,9 +676,7 @@ Proof.
       { constructor; [|exact (Forall_inv_tail Hfw)]. cbn [d0' kp kO]. rewrite Hnx. symmetry. apply (cnt_zero _ d0 Hst). now left. }
       destruct (to_Fnorm _ _ _ _ HP Hok1 Hst1 Hfw1 Hheap' Hv) as [p' [Hp [HM Hn]]].
       rewrite (tsum_same _ _ Hsame), HT in HM. exists p', (asum (d0' :: ds')). split; [exact HM|]. split; [apply nxt_of_nu; exact Hp|]. split; [exact Hn|].
-      destruct Hms as [[_ Hs1]|Hlt]; [left|right; rewrite <- Ha; cbn [asum d0' ka]; lia].
-      apply (all_none_root true). eapply Permutation_Forall; [symmetry; exact HP|].
-      apply (root_none_all true _ (c_next c s0) Hheap eq_refl Hs1).
+      right. destruct (sums_bound _ _ (kids_ok_any _ _ _ Hok1)) as [Hsb _]. rewrite (tsum_same _ _ Hsame), HT in Hsb. lia.
   - (* backward: every child steps forward, heapify *)
     destruct (switch_fwd _ _ _ _ (kids_ok_Kd _ _ _ Hok) Hst Hrv Hr HT) as [p' [a' [Hp [HM [Hn Ha']]]]].
     exists p', a'. split; [exact HM|]. split; [|split; [exact Hn|right; lia]].
@@ -712,8 +699,8 @@ Lemma prevK st md p a b T : MLT st md p a b T ->
     (md = false -> forall x y, m_kv c st = Some x -> m_kv c (m_prev c st) = Some y -> elt y x).
 Proof.
   intros HM. pose proof (MLT_bounds _ _ _ _ _ _ HM) as HB.
-  destruct HM as [p a T [ds [Hf [Hv [Hok [Hst [Hfw [Hheap [Ha HT]]]]]]]] Hkv|a T [ds [Hf [Hst [Hfw [Hroot [Hheap [Ha HT]]]]]]]|
-                  p b T [ds [Hf [Hr [Hok [Hst [Hrv [Hheap [Hb HT]]]]]]]] Hkv|b T [ds [Hf [Hst [Hrv [Hroot [Hheap [Hb HT]]]]]]]];
+  destruct HM as [p a T [ds [Hf [Hv [Hok [Hst [Hfw [Hheap [Ha HT]]]]]]]] Hkv|T [ds [Hf [Hst [Hfw [Hroot [Hheap HT]]]]]]|
+                  p b T [ds [Hf [Hr [Hok [Hst [Hrv [Hheap [Hb HT]]]]]]]] Hkv|T [ds [Hf [Hst [Hrv [Hroot [Hheap HT]]]]]]];
     unfold m_prev; rewrite Hf.
   - (* forward: every child steps back, heapify backwards *)
     destruct (switch_rev _ _ _ _ (kids_ok_Kd _ _ _ Hok) Hst Hfw Hv HT) as [p' [b' [Hp [HM [Hn [Hg Hb']]]]]].
@@ -784,7 +771,7 @@ Proof.
         unfold eeq. rewrite ecmp_antisym, Ec. reflexivity.
   - (* backward, just after seek_to_last: the root moves onto its last entry *)
     assert (heap c false (percolate_down (is_less c false) (length (on_root (c_prev c) (m_kids st))) (on_root (c_prev c) (m_kids st)) 0)) as Hheap'
-      by (apply percolate_root_heap; eapply heap_from_weaken; [|exact Hheap]; lia).
+      by (apply percolate_root_heap; now apply heap1_upd_root).
     pose proof (percolate_perm' c false (length (on_root (c_prev c) (m_kids st))) (on_root (c_prev c) (m_kids st)) 0) as HP.
     set (kids2 := percolate_down (is_less c false) (length (on_root (c_prev c) (m_kids st))) (on_root (c_prev c) (m_kids st)) 0) in *.
     assert (-1 <= n - 1 <= n - 1) as Hr by (pose proof (len_nonneg O); lia).
@@ -805,10 +792,107 @@ Proof.
       destruct (to_Rnorm _ _ _ _ HP Hok1 Hst1 Hrv1 Hheap' Hr) as [p' [Hp [HM [Hn Hg]]]].
       rewrite (tsum_same _ _ Hsame), HT in HM. exists p', (bsum (d0' :: ds')). split; [exact HM|]. split; [apply prv_of_rho; exact Hp|]. split; [exact Hn|]. split; [exact Hg|].
       split.
-      * destruct Hms as [[_ Hs1]|Hlt]; [left|right; rewrite <- Hb; cbn [bsum d0' kb]; lia].
-        apply (all_none_root false). eapply Permutation_Forall; [symmetry; exact HP|].
-        apply (root_none_all false _ (c_prev c s0) Hheap eq_refl Hs1).
+      * right. destruct (sums_bound _ _ (kids_ok_any _ _ _ Hok1)) as [_ Hsb]. rewrite (tsum_same _ _ Hsame), HT in Hsb. lia.
       * intros _ x' y Hx. unfold m_kv in Hx. rewrite Ek in Hx. congruence.
+Qed.
+
+(* ---------------------------------------------------------------- the lists under the children grow *)
+(* rf: what an insertion into the lists does to a child's state.  A child keeps its logical
+   position and what it shows; then so does the merge. *)
+Fixpoint usum (kids : list S) : Z := match kids with [] => 0 | s :: r => (len (Uof s) + 2) + usum r end.
+
+Lemma kU_map kids ds : Forall2 (fun s d => exists md, Kd md s d) kids ds -> map kU ds = map Uof kids.
+Proof. induction 1 as [|s d kids ds [md H] _ IH]; [reflexivity|]. cbn [map]. rewrite IH. f_equal. exact (k_U _ _ _ _ _ _ _ H). Qed.
+Lemma tsum_usum kids ds : Forall2 (fun s d => exists md, Kd md s d) kids ds -> tsum ds = usum kids.
+Proof. induction 1 as [|s d kids ds [md H] _ IH]; [reflexivity|]. cbn [tsum usum]. rewrite IH, (k_U _ _ _ _ _ _ _ H). reflexivity. Qed.
+
+Definition keeps (rf : S -> S) (s : S) : Prop :=
+  c_kv c (rf s) = c_kv c s /\
+  forall d md0, Kd md0 s d -> exists d', Kd md0 (rf s) d' /\ kO d' = kO d /\ kp d' = kp d /\ incl (kO d') (kU d').
+Definition kept (d d' : kdesc) : Prop := kO d' = kO d /\ kp d' = kp d /\ incl (kO d') (kU d').
+
+Lemma kids_map_in (f : S -> S) (R R' : S -> kdesc -> Prop) (X : kdesc -> kdesc -> Prop) kids ds :
+  Forall2 R kids ds -> (forall s d, In s kids -> R s d -> exists d', R' (f s) d' /\ X d d') ->
+  exists ds', Forall2 R' (map f kids) ds' /\ Forall2 X ds ds'.
+Proof.
+  intros HF. induction HF as [|s d kids ds H _ IH]; intros Hstep; [exists []; split; constructor|].
+  destruct (Hstep s d (or_introl eq_refl) H) as [d' [H1 H2]].
+  destruct IH as [ds' [I1 I2]]; [intros s1 d1 Hin; apply Hstep; now right|].
+  exists (d' :: ds'). cbn [map]. split; constructor; assumption.
+Qed.
+
+Lemma kept_ok (rf : S -> S) md s d : keeps rf s -> kid_ok md s d -> exists d', kid_ok md (rf s) d' /\ kept d d'.
+Proof.
+  intros [Hkv Hk] [HK Hn]. destruct (Hk d md HK) as [d' [HK' [E1 [E2 E3]]]]. exists d'. split; [|split; auto].
+  split; [exact HK'|]. rewrite Hkv, E2, E1. exact Hn.
+Qed.
+Lemma kept_maps ds ds' : Forall2 kept ds ds' -> map kO ds' = map kO ds /\ map kp ds' = map kp ds.
+Proof. induction 1 as [|d d' ds ds' [H1 [H2 _]] _ [IH1 IH2]]; [auto|]. cbn [map]. now rewrite H1, H2, IH1, IH2. Qed.
+
+Lemma kept_static (rf : S -> S) kids ds ds' : Forall2 (fun s d => exists md, Kd md s d) (map rf kids) ds' -> Forall2 kept ds ds' -> kstatic ds ->
+  distinct (concat (map Uof (map rf kids))) -> kstatic ds'.
+Proof.
+  intros Hany HX [H1 [H2 _]] Hd. destruct (kept_maps _ _ HX) as [EO _]. unfold kstatic. rewrite EO, (kU_map _ _ Hany). split; [|auto].
+  clear -HX H1. induction HX as [|d d' ds ds' [Ea [_ Ec]] _ IH]; [constructor|]. inversion H1 as [|? ? [Hs _] H1']; subst.
+  constructor; [split; [rewrite Ea; exact Hs|exact Ec]|apply IH; exact H1'].
+Qed.
+Lemma kept_FW v ds ds' : Forall2 kept ds ds' -> FW v ds -> FW v ds'.
+Proof. induction 1 as [|d d' ds ds' [Ea [Eb _]] _ IH]; intros H; [constructor|]. inversion H; subst. constructor; [rewrite Ea, Eb; assumption|apply IH; assumption]. Qed.
+Lemma kept_RV r ds ds' : Forall2 kept ds ds' -> RV r ds -> RV r ds'.
+Proof. induction 1 as [|d d' ds ds' [Ea [Eb _]] _ IH]; intros H; [constructor|]. inversion H; subst. constructor; [rewrite Ea, Eb; assumption|apply IH; assumption]. Qed.
+Lemma kv_ext_map (rf : S -> S) kids : (forall s, In s kids -> c_kv c (rf s) = c_kv c s) -> Forall2 (fun a b => c_kv c a = c_kv c b) kids (map rf kids).
+Proof. induction kids as [|s r IH]; intros H; [constructor|]. cbn [map]. constructor; [symmetry; apply H; now left|apply IH; intros s1 H1; apply H; now right]. Qed.
+
+Lemma MLT_transfer (rf : S -> S) st md p a b T : MLT st md p a b T -> (forall s, In s (m_kids st) -> keeps rf s) ->
+  distinct (concat (map Uof (map rf (m_kids st)))) ->
+  exists a' b', MLT (mkM (m_fwd st) (map rf (m_kids st))) md p a' b' (usum (map rf (m_kids st))) /\
+                m_kv c (mkM (m_fwd st) (map rf (m_kids st))) = m_kv c st.
+Proof.
+  intros HM Hkeep Hd.
+  assert (forall s, In s (m_kids st) -> c_kv c (rf s) = c_kv c s) as Hkvs by (intros s Hs; exact (proj1 (Hkeep s Hs))).
+  pose proof (kv_ext_map rf _ Hkvs) as Hext.
+  assert (m_kv c (mkM (m_fwd st) (map rf (m_kids st))) = m_kv c st) as Ekv.
+  { unfold m_kv. cbn [m_kids]. destruct (m_kids st) as [|s0 r]; [reflexivity|]. cbn [map]. apply Hkvs. now left. }
+  assert (forall q, kvmatch st q -> kvmatch (mkM (m_fwd st) (map rf (m_kids st))) q) as Hkm
+    by (intros q; unfold kvmatch; rewrite Ekv; auto).
+  destruct HM as [p a T [ds [Hf [Hv [Hok [Hst [Hfw [Hheap [Ha HT]]]]]]]] Hkv|T [ds [Hf [Hst [Hfw [Hroot [Hheap HT]]]]]]|
+                  p b T [ds [Hf [Hr [Hok [Hst [Hrv [Hheap [Hb HT]]]]]]]] Hkv|T [ds [Hf [Hst [Hrv [Hroot [Hheap HT]]]]]]]; rewrite Hf.
+  - destruct (kids_map_in rf _ (kid_ok true) kept _ _ Hok) as [ds' [Hok' HX]]; [intros s d Hs H; apply kept_ok; [now apply Hkeep|exact H]|].
+    pose proof (kept_static rf _ _ _ (kids_ok_any _ _ _ Hok') HX Hst Hd) as Hst'.
+    exists (asum ds'), (usum (map rf (m_kids st)) + 1). split; [|exact Ekv]. rewrite <- (tsum_usum _ _ (kids_ok_any _ _ _ Hok')).
+    apply MLF; [|now apply Hkm]. exists ds'. cbn [m_fwd m_kids]. split; [reflexivity|]. split; [exact Hv|]. split; [exact Hok'|]. split; [exact Hst'|].
+    split; [eapply kept_FW; eauto|]. split; [eapply heap_from_kv_ext; eauto|]. split; reflexivity.
+  - exists (usum (map rf (m_kids st)) + 1), (usum (map rf (m_kids st)) + 1). split; [|exact Ekv].
+    destruct (m_kids st) as [|s0 kids'] eqn:Ek; destruct ds as [|d0 ds']; try contradiction.
+    + cbn [map usum]. apply (MLFs _ 0). exists []. cbn [m_fwd m_kids]. split; [reflexivity|]. split; [exact Hst|]. split; [constructor|]. split; [exact I|]. split; [exact Hheap|reflexivity].
+    + destruct Hroot as [H0 [Ep0 [Hs0 Hok]]].
+      destruct (Hkeep s0 (or_introl eq_refl)) as [Hkv0 Hk0]. destruct (Hk0 d0 true H0) as [d0' [H0' [E1 [E2 E3]]]].
+      destruct (kids_map_in rf _ (kid_ok true) kept _ _ Hok) as [ds'' [Hok' HX]]; [intros s d Hs H; apply kept_ok; [apply Hkeep; now right|exact H]|].
+      assert (Forall2 kept (d0 :: ds') (d0' :: ds'')) as HX2 by (constructor; [split; auto|exact HX]).
+      assert (Forall2 (fun s d => exists md, Kd md s d) (map rf (s0 :: kids')) (d0' :: ds'')) as Hany'
+        by (cbn [map]; constructor; [exists true; exact H0'|eapply kids_ok_any; eauto]).
+      pose proof (kept_static rf _ _ _ Hany' HX2 Hst Hd) as Hst'.
+      rewrite <- (tsum_usum _ _ Hany'). apply MLFs. exists (d0' :: ds''). cbn [m_fwd m_kids map]. split; [reflexivity|]. split; [exact Hst'|].
+      split; [eapply kept_FW; eauto|]. split; [split; [exact H0'|split; [now rewrite E2|split; [now rewrite Hkv0|exact Hok']]]|].
+      split; [|reflexivity]. eapply heap_from_kv_ext; [exact Hext|exact Hheap].
+  - destruct (kids_map_in rf _ (kid_ok false) kept _ _ Hok) as [ds' [Hok' HX]]; [intros s d Hs H; apply kept_ok; [now apply Hkeep|exact H]|].
+    pose proof (kept_static rf _ _ _ (kids_ok_any _ _ _ Hok') HX Hst Hd) as Hst'.
+    exists (usum (map rf (m_kids st)) + 1), (bsum ds'). split; [|exact Ekv]. rewrite <- (tsum_usum _ _ (kids_ok_any _ _ _ Hok')).
+    apply MLR; [|now apply Hkm]. exists ds'. cbn [m_fwd m_kids]. split; [reflexivity|]. split; [exact Hr|]. split; [exact Hok'|]. split; [exact Hst'|].
+    split; [eapply kept_RV; eauto|]. split; [eapply heap_from_kv_ext; eauto|]. split; reflexivity.
+  - exists (usum (map rf (m_kids st)) + 1), (usum (map rf (m_kids st)) + 1). split; [|exact Ekv].
+    destruct (m_kids st) as [|s0 kids'] eqn:Ek; destruct ds as [|d0 ds']; try contradiction.
+    + cbn [map usum]. apply (MLRe _ 0). exists []. cbn [m_fwd m_kids]. split; [reflexivity|]. split; [exact Hst|]. split; [constructor|]. split; [exact I|]. split; [exact Hheap|reflexivity].
+    + destruct Hroot as [H0 [Ep0 [Hs0 Hok]]].
+      destruct (Hkeep s0 (or_introl eq_refl)) as [Hkv0 Hk0]. destruct (Hk0 d0 false H0) as [d0' [H0' [E1 [E2 E3]]]].
+      destruct (kids_map_in rf _ (kid_ok false) kept _ _ Hok) as [ds'' [Hok' HX]]; [intros s d Hs H; apply kept_ok; [apply Hkeep; now right|exact H]|].
+      assert (Forall2 kept (d0 :: ds') (d0' :: ds'')) as HX2 by (constructor; [split; auto|exact HX]).
+      assert (Forall2 (fun s d => exists md, Kd md s d) (map rf (s0 :: kids')) (d0' :: ds'')) as Hany'
+        by (cbn [map]; constructor; [exists false; exact H0'|eapply kids_ok_any; eauto]).
+      pose proof (kept_static rf _ _ _ Hany' HX2 Hst Hd) as Hst'.
+      rewrite <- (tsum_usum _ _ Hany'). apply MLRe. exists (d0' :: ds''). cbn [m_fwd m_kids map]. split; [reflexivity|]. split; [exact Hst'|].
+      split; [eapply kept_RV; eauto|]. split; [split; [exact H0'|split; [now rewrite E2, E1|split; [now rewrite Hkv0|exact Hok']]]|].
+      split; [|reflexivity]. eapply heap_from_kv_ext; [exact Hext|exact Hheap].
 Qed.
 
 (* ---------------------------------------------------------------- the interface of ProofsLT *)
@@ -818,6 +902,18 @@ Variable T0 : Z.
 Definition LTm (s : mstate S) (md : bool) (p : lpos) : Prop :=
   exists a b T, MLT s md p a b T /\ T <= T0 /\
     (md = false -> forall g x, p = LGap g -> m_kv c s = Some x -> 0 < g -> elt (at_ O (g - 1)) x).
+
+Lemma LTm_transfer (rf : S -> S) s md p : LTm s md p -> (forall k, In k (m_kids s) -> keeps rf k) ->
+  distinct (concat (map Uof (map rf (m_kids s)))) -> usum (map rf (m_kids s)) <= T0 ->
+  LTm (mkM (m_fwd s) (map rf (m_kids s))) md p /\ m_kv c (mkM (m_fwd s) (map rf (m_kids s))) = m_kv c s.
+Proof.
+  intros [a [b [T [HM [_ Hbd]]]]] Hk Hd HT. destruct (MLT_transfer rf _ _ _ _ _ _ HM Hk Hd) as [a' [b' [HM' Ekv]]].
+  split; [|exact Ekv]. exists a', b', (usum (map rf (m_kids s))). split; [exact HM'|]. split; [exact HT|]. rewrite Ekv. exact Hbd.
+Qed.
+Lemma LTm_usum s md p : LTm s md p -> usum (m_kids s) <= T0.
+Proof.
+  intros [a [b [T [HM [HT _]]]]]. destruct (MLT_stat _ _ _ _ _ _ HM) as [ds [Hany [_ E]]]. rewrite <- (tsum_usum _ _ Hany), E. exact HT.
+Qed.
 
 (* how many calls of next (prev) until nothing is shown, searched up to k calls *)
 Fixpoint cnt_next (k : nat) (s : mstate S) : nat :=
@@ -882,7 +978,7 @@ Proof.
           | None => True | Some x => (t < ets x)%N /\ (md = false -> 0 < g -> elt (at_ O (g - 1)) x) end) as Hfin.
   { destruct (m_kv c s) as [x|] eqn:E; [|auto]. intros Ho. split; [unfold isold in Ho; now apply N.leb_gt in Ho|].
     intros Hmd Hg. exact (Hbd Hmd g x eq_refl eq_refl Hg). }
-  inversion HM as [p0 a0 T1 [ds [_ [Hv _]]] Hkv|a0 T1 [ds [_ [_ [_ [Hr _]]]]]|p0 b0 T1 [ds [_ [Hr _]]] Hkv|b0 T1 [ds [_ [_ [_ [Hr _]]]]]]; subst.
+  inversion HM as [p0 a0 T1 [ds [_ [Hv _]]] Hkv|T1 [ds [_ [_ [_ [Hr _]]]]]|p0 b0 T1 [ds [_ [Hr _]]] Hkv|T1 [ds [_ [_ [_ [Hr _]]]]]]; subst.
   - cbn [nu] in Hv. split; [exact Hv|]. apply Hfin. exact Hkv.
   - split; [lia|]. apply Hfin. unfold m_kv. destruct (m_kids s) as [|s0 kids'], ds as [|d0 ds']; try contradiction; [exact I|].
     destruct Hr as [_ [_ [-> _]]]. exact I.
@@ -938,6 +1034,43 @@ Proof.
   destruct (prevK _ _ _ _ _ _ HM) as [p' [b' [HM' _]]]. pose proof (MLT_bounds _ _ _ _ _ _ HM') as HB.
   pose proof (cnt_prev_le (Z.to_nat T0 + 2) _ _ _ _ _ _ HM') as Hle.
   rewrite cnt_prev_stable by lia. lia.
+Qed.
+
+Lemma LTm_new kids ds : Forall2 (fun s d => exists md, Kd md s d) kids ds -> kstatic ds -> tsum ds <= T0 ->
+  LTm (m_new c kids) true (LGap 0) /\ m_kv c (m_new c kids) = None.
+Proof.
+  intros Hany Hst HT. unfold m_new. destruct (firstK (mkM true kids) (tsum ds)) as [a [HM Hkv]]; [exists ds; auto|].
+  split; [|exact Hkv]. exists a, (tsum ds + 1), (tsum ds). split; [exact HM|]. split; [exact HT|discriminate].
+Qed.
+
+Lemma LTm_kids s md p : LTm s md p -> forall k, In k (m_kids s) -> exists d md0, Kd md0 k d.
+Proof.
+  intros [a [b [T [HM _]]]] k Hk. destruct (MLT_stat _ _ _ _ _ _ HM) as [ds [Hany _]]. destruct (In_nth_error _ _ Hk) as [i Hi].
+  destruct (Forall2_nth _ _ _ _ _ Hany Hi) as [d [_ [md0 H]]]. eauto.
+Qed.
+
+(* everything the layers above need, in one statement (so that it is instantiated once) *)
+Theorem merge_lt_pack :
+  (forall s md j, LTm s md (LAt j) -> 0 <= j < n /\ m_kv c s = Some (at_ O j)) /\
+  (forall s md g, LTm s md (LGap g) -> 0 <= g <= n /\
+     match m_kv c s with None => True | Some x => (t < ets x)%N /\ (md = false -> 0 < g -> elt (at_ O (g - 1)) x) end) /\
+  (forall s md p, LTm s md p -> exists p', LTm (m_next c s) true p' /\ nxt p p' /\ (m_kv c (m_next c s) = None -> p' = LGap n)) /\
+  (forall s md p, LTm s md p -> exists p', LTm (m_prev c s) false p' /\ prv p p' /\ (m_kv c (m_prev c s) = None -> p' = LGap 0) /\
+     (md = false -> forall x y, m_kv c s = Some x -> m_kv c (m_prev c s) = Some y -> elt y x)) /\
+  (forall s md p k, LTm s md p -> exists p', LTm (m_seek c k s) true p' /\ nu p' = count (below k) O /\ (m_kv c (m_seek c k s) = None -> p' = LGap n)) /\
+  (forall s md p, LTm s md p -> LTm (m_first c s) true (LGap 0) /\ m_kv c (m_first c s) = None) /\
+  (forall s md p, LTm s md p -> LTm (m_last c s) false (LGap n) /\ m_kv c (m_last c s) = None) /\
+  (forall s md p, LTm s md p -> (ahead_m s <= Bnd_m + 1)%nat /\ (m_kv c (m_next c s) = None \/ (ahead_m (m_next c s) < ahead_m s)%nat)) /\
+  (forall s md p, LTm s md p -> (behind_m s <= Bnd_m + 1)%nat /\ (m_kv c (m_prev c s) = None \/ (behind_m (m_prev c s) < behind_m s)%nat)) /\
+  (forall (rf : S -> S) s md p, LTm s md p -> (forall k, In k (m_kids s) -> keeps rf k) ->
+     distinct (concat (map Uof (map rf (m_kids s)))) -> usum (map rf (m_kids s)) <= T0 ->
+     LTm (mkM (m_fwd s) (map rf (m_kids s))) md p /\ m_kv c (mkM (m_fwd s) (map rf (m_kids s))) = m_kv c s) /\
+  (forall kids ds, Forall2 (fun s d => exists md, Kd md s d) kids ds -> kstatic ds -> tsum ds <= T0 ->
+     LTm (m_new c kids) true (LGap 0) /\ m_kv c (m_new c kids) = None) /\
+  (forall s md p, LTm s md p -> forall k, In k (m_kids s) -> exists d md0, Kd md0 k d).
+Proof.
+  split; [exact ltm_at|]. split; [exact ltm_gap|]. split; [exact ltm_next|]. split; [exact ltm_prev|]. split; [exact ltm_seek|].
+  split; [exact ltm_first|]. split; [exact ltm_last|]. split; [exact ltm_ahead|]. split; [exact ltm_behind|]. split; [exact LTm_transfer|]. split; [exact LTm_new|exact LTm_kids].
 Qed.
 
 (* the PruningCursor over the merge of late-tolerant children is the reference cursor over the
